@@ -92,7 +92,9 @@ prop("C09", "exploration",
      "to the wallet whose plaintext is malformed; a passphrase-type age file in a mode-1 slatepack. distinct = (entry point, input class, "
      "accepted/rejected, length bucket); non-trivial = all",
      [{"name": "c09", "cmd": "c09", "shards": {"quick": 12, "thorough": 16}, "crash_is_violation": True, "timeout": {"quick": 900, "thorough": 3000}},
-      {"name": "c09-asan", "cmd": "c09", "shards": 12, "tiers": ["thorough"], "run_tier": "quick", "build": "asan", "tag": "asan", "crash_is_violation": True, "timeout": {"thorough": 3000}}],
+      {"name": "c09-asan", "cmd": "c09", "shards": 12, "tiers": ["thorough"], "run_tier": "quick", "build": "asan", "tag": "asan", "crash_is_violation": True, "args": {"thorough": {"cpulimit": 60}}, "timeout": {"thorough": 3000}},
+      {"name": "c09-miri", "cmd": "miri", "runner": "miri", "inputs": 80, "shards": 16, "tiers": ["thorough"], "tag": "miri", "timeout": {"thorough": 3000}},
+      {"name": "c09-valgrind", "cmd": "c09", "wrap": "valgrind", "shards": 12, "tiers": ["thorough"], "run_tier": "quick", "args": {"thorough": {"pct": 3, "cpulimit": 900}}, "tag": "valgrind", "timeout": {"thorough": 3400}}],
      {"quick": 300000, "thorough": 3000000},
      ["armored inputs are kept below ~20 kB (base58 decoding is quadratic; bounded by the size limit, so not a violation, but too slow to sweep)",
       "child-index (derivation counter) bumps are not counted as wallet state for the 'rejected input leaves state untouched' clause",
